@@ -363,6 +363,11 @@ class Verdict:
 
     def finish(self, coverage_extra=None, rule="", assumptions=None):
         os.makedirs(REPLAYS, exist_ok=True)
+        # B2 for the LSP layer: whatever sessions of the real binary this check drove (tools/lsp.py collects every message log)
+        # must be behaviours of spec/LspTrace.tla -- unless the check validated them itself already
+        if "lsp" in sys.modules and sys.modules["lsp"].SESSIONS and "lsp_trace_validation" not in self.notes:
+            import lsptrace
+            lsptrace.validate_collected(self, max_events=120000 if self.tier == "quick" else 1500000)
         wall = time.time() - self.t0
         for dev, n in sorted(self.known_counts.items()):
             f = self.open[dev]
